@@ -44,6 +44,23 @@ theorem C13_labeled_sum_int (dt : DT) (wf : dt.WF) (n : Nat) (px : List (Int × 
   intro hr
   rw [key, DT.wrap_in dt _ hr]
 
+/-- **C13-T1 (labeled_sum, any commutative additive monoid: ℤ, ℚ, ℝ, any ordered field).** With exact
+arithmetic the slot of label `l` is the sum of the values labelled `l`, whatever their signs. (The driver
+runs the same fold at `Float`; there the harness uses dyadic data so that every partial sum is exact.) -/
+theorem C13_labeled_sum_exact {α : Type} [AddCommMonoid α] (n : Nat) (px : List (α × Int)) (l : Nat)
+    (hl : l < n) :
+    (labeledFold (fun a r => a + r) 0 n px)[l]? = some (valuesOf px (l : Int)).sum := by
+  rw [labeledFold_slot _ _ n px l hl, foldl_add_comm_sum, zero_add]
+
+/-- **C13-T1 (labeled_sum, bool).** For boolean images the fold is `or`: the slot is 1 iff some pixel
+labelled `l` is set. -/
+theorem C13_labeled_sum_bool (n : Nat) (px : List (Int × Int)) (l : Nat) (hl : l < n) :
+    (sumInt dtBool n px)[l]? = some (if (valuesOf px (l : Int)).any (· ≠ 0) then 1 else 0) := by
+  unfold sumInt
+  simp only [dtBool, if_true]
+  rw [labeledFold_slot _ _ n px l hl, foldl_or_any _ 0 (Or.inl rfl)]
+  simp
+
 /-- **C13-T1 (labeled_max / labeled_min, any linearly ordered value type).** If the identity element is a
 lower bound of the values labelled `l` (for `labeled_max`; an upper bound for `labeled_min`) — i.e. it is
 the least/greatest element of the *type*, as `lowest()`/`max()` are — and the label is not empty, the slot
